@@ -15,6 +15,7 @@ import (
 	"math/big"
 	"os"
 	"runtime"
+	"sort"
 	"strconv"
 	"strings"
 	"sync"
@@ -1444,6 +1445,89 @@ func sectionConcurrentEncoders() {
 	R.Count("accounts_encoded_on_8_goroutines", int64(n))
 }
 
+// sectionConcurrentParsers: every text parser of the user-friendly and raw forms runs on 8 goroutines at
+// once, each goroutine over its own accounts (nothing is shared by the callers): every valid string must
+// parse to its own account and a string with one character changed must be refused, exactly as when the
+// parsers run alone. A parser that keeps state between calls (a shared checksum object, a scratch buffer)
+// shows here and nowhere else.
+func sectionConcurrentParsers() {
+	n := R.N(24000, 400000)
+	var wg sync.WaitGroup
+	start := make(chan struct{})
+	var mu sync.Mutex
+	first := map[string]map[string]any{}
+	report := func(sig string, w map[string]any) {
+		mu.Lock()
+		if _, ok := first[sig]; !ok {
+			first[sig] = w
+		}
+		mu.Unlock()
+	}
+	const alphabet = "ABCDEFGHIJKLMNOPQRSTUVWXYZabcdefghijklmnopqrstuvwxyz0123456789-_"
+	for w := 0; w < 8; w++ {
+		wg.Add(1)
+		go func(w int) {
+			defer wg.Done()
+			<-start
+			for i := w; i < n; i += 8 {
+				rng := R.Rng("concurrent-parsers", i)
+				wc := int8(rng.Intn(256))
+				h := rand32(rng)
+				want := ton.AccountID{Workchain: int32(wc), Address: h}
+				hum := addr.Friendly(wc, h, rng.Bool(), rng.Bool(), true)
+				raw := addr.Raw(int32(wc), h, false)
+				// one character of the friendly form replaced by another letter of the same alphabet
+				k := rng.Intn(len(hum))
+				c := alphabet[rng.Intn(len(alphabet))]
+				for c == hum[k] {
+					c = alphabet[rng.Intn(len(alphabet))]
+				}
+				bad := hum[:k] + string(c) + hum[k+1:]
+				for _, ps := range friendlyParsers {
+					var got ton.AccountID
+					var err error
+					if pn := mon.Guard(func() { got, err = ps.f(hum) }); pn != nil {
+						report("panic@"+pn.Site+"/concurrent-parsers", map[string]any{"parser": ps.name, "input": hum, "panic": pn.Value})
+						return
+					}
+					if err != nil || got != want {
+						report("roundtrip-mismatch@concurrent-parsers/friendly/"+ps.name, map[string]any{"parser": ps.name, "input": hum, "err": fmt.Sprint(err), "got": got.ToRaw(), "want": raw})
+					}
+					var gb ton.AccountID
+					var eb error
+					if pn := mon.Guard(func() { gb, eb = ps.f(bad) }); pn == nil && eb == nil {
+						// CRC16 catches every change confined to one character (6 bits): it must be refused
+						report("accepted-mutated@concurrent-parsers/"+ps.name, map[string]any{"parser": ps.name, "input": bad, "original": hum, "got": gb.ToRaw()})
+					}
+				}
+				for _, ps := range rawParsers {
+					var got ton.AccountID
+					var err error
+					if pn := mon.Guard(func() { got, err = ps.f(raw) }); pn != nil {
+						report("panic@"+pn.Site+"/concurrent-parsers", map[string]any{"parser": ps.name, "input": raw, "panic": pn.Value})
+						return
+					}
+					if err != nil || got != want {
+						report("roundtrip-mismatch@concurrent-parsers/raw/"+ps.name, map[string]any{"parser": ps.name, "input": raw, "err": fmt.Sprint(err), "got": got.ToRaw(), "want": raw})
+					}
+				}
+				R.Eval("")
+			}
+		}(w)
+	}
+	close(start)
+	wg.Wait()
+	R.Count("accounts_parsed_on_8_goroutines", int64(n))
+	sigs := make([]string, 0, len(first))
+	for sg := range first {
+		sigs = append(sigs, sg)
+	}
+	sort.Strings(sigs)
+	for _, sg := range sigs {
+		R.Violation(sg, first[sg])
+	}
+}
+
 func main() {
 	tier := "quick"
 	if len(os.Args) > 1 {
@@ -1471,6 +1555,7 @@ func main() {
 	sectionParents()
 	sectionADNL()
 	sectionConcurrentEncoders()
+	sectionConcurrentParsers()
 
 	h := rand32(R.Rng("sample", 0))
 	R.Sample(map[string]any{"kind": "forms of one account", "raw": addr.Raw(-1, h, false), "friendly_bounceable": addr.Friendly(-1, h, true, false, true),
